@@ -27,6 +27,7 @@ SPEC = {
     "prop": "llrun",
     "gen_extra": ["styled"],
     "mod": "ParolModel.Props.C02",
+    "more_mods": ["ParolModel.Props.C02b"],
     "files": FILES,
     "oracle_req": oracle_req,
     "nontrivial": nontrivial,
@@ -41,7 +42,7 @@ SPEC = {
 
 CLAIM = {
     "category": "proof",
-    "text": "Theorem ll_tree_actions: for ALL tables (under the checked hypotheses) and ALL inputs, a successful run of the model of LLKParser::parse_into emits exactly the traversal of a derivation of the start symbol — DS, a derivation forest given by its traversal: one production per non-terminal occurrence, children = its right-hand side in order, node opened before / closed after its children, action (p, children-of-this-application) after the children's actions and before the right siblings' (post-order, once per application); ds_is_derivation: the consumed token types are derived by it in the production table's grammar; ds_action_arity. Proof route: big-step relation SD mirroring the loop (llLoop_SD) and a decomposition lemma (SD_decompose) by strong induction on step count. Tied to the code by the exact differential run of C01 (action trace with argument lists, tree events) on styled inputs; the executable property statement treeCheck is also evaluated on every successful real run.",
+    "text": "Props/C02b: ll_dtree (a successful run has a well-formed derivation tree d rooted in the start symbol with frontier = the significant token types, leaves = all delivered tokens, actions = post-order of d, tree events = rendering of d, predictions = pre-order of d), ll_reductions_leftmost (the productions in the order LLKParser predicts them — a ghost trace proved erasable — form a LEFTMOST derivation of the input; each is reported exactly once, ll_actions_perm_predictions), ll_treeCheck_ok (the executable oracle treeCheck that judges every real run is a theorem about the model's own output). Theorem ll_tree_actions: for ALL tables (under the checked hypotheses) and ALL inputs, a successful run of the model of LLKParser::parse_into emits exactly the traversal of a derivation of the start symbol — DS, a derivation forest given by its traversal: one production per non-terminal occurrence, children = its right-hand side in order, node opened before / closed after its children, action (p, children-of-this-application) after the children's actions and before the right siblings' (post-order, once per application); ds_is_derivation: the consumed token types are derived by it in the production table's grammar; ds_action_arity. Proof route: big-step relation SD mirroring the loop (llLoop_SD) and a decomposition lemma (SD_decompose) by strong induction on step count. Tied to the code by the exact differential run of C01 (action trace with argument lists, tree events) on styled inputs; the executable property statement treeCheck is also evaluated on every successful real run.",
     "design_ref": "DESIGN.md §6 C02",
     "note": "Trusted: Lean kernel; faithfulness of the hand-written model as observed by the differential run; harness and orchestrator. Grammars are sampled; the theorem covers all inputs per table set.",
     "technique": "Lean 4 proof over hand-written model + differential correspondence check + executable property statement on real output",
